@@ -120,6 +120,9 @@ func (fr *FnRun) checkSite(st *State, site ssa.Instruction, desc string) {
 			}
 			t, msg := fr.tryEvalBool(a.E, env)
 			if msg != "" {
+				if n := fr.staleName(msg); n != "" && fr.fn.Parent() == nil {
+					panic(abortf("contract out of date: call-site assertion {%s} mentions %q, which is not a parameter or local of the function any more (renamed or removed); the contract has to be updated", d, n))
+				}
 				fr.oblige(st, "site", d, tFalse, a, a.Src+"   [cannot be evaluated before the call to "+desc+": "+msg+"]")
 				continue
 			}
